@@ -308,6 +308,13 @@ pub struct PersistentMeta {
 }
 
 impl PersistentMeta {
+    /// Drop the map keys if they cannot be the keys of an array with some number of rows
+    pub(crate) fn fitting(mut self, row_count: usize) -> Self {
+        if (self.map_keys.as_ref()).is_some_and(|keys| !keys.fits_row_count(row_count)) {
+            self.map_keys = None;
+        }
+        self
+    }
     /// XOR this metadata with another
     pub fn xor(self, other: Self) -> Self {
         Self {
